@@ -557,6 +557,16 @@ func checkAggCase(res *Result, ac *aggCase, U []absSig, idx int, repeats int) {
 				break
 			}
 		}
+		// the classes do not depend on what the snapshot was used for before: coarser levels first
+		if first != nil {
+			for _, lv2 := range []stack.Similarity{stack.AnyValue, stack.AnyPointer, stack.ExactLines, stack.ExactFlags} {
+				_ = snap.Aggregate(lv2)
+			}
+			if again := projAgg(snap.Aggregate(lvl)); !reflect.DeepEqual(idSets(want), idSets(again)) {
+				res.violation(mk("C05", "classes-after-history", route+": after aggregating the same snapshot at the other levels, the buckets at this level are no longer the similarity classes", idSets(want), idSets(again)))
+				res.violation(mk("C14", "mutated", route+": earlier aggregations changed what a later one returns", idSets(want), idSets(again)))
+			}
+		}
 	}
 }
 
